@@ -34,6 +34,11 @@ def TdEv.entity : TdEv → Option Nat
   | .run _ w => w
   | .err _ w => w
 
+/-- forget who executed it -/
+def TdEv.anon : TdEv → TdEv
+  | .run n _ => .run n none
+  | .err n _ => .err n none
+
 /-- `Runner.teardown()` executed by entity `w` on the `teardown_list` `l` (start order), chronological:
     `for task in reversed(l): teardown_task; execute_teardown; if result: cleanup_error` — a failure does not end
     the loop -/
@@ -146,8 +151,7 @@ def monTdExact (inp : RunInput) (tdFail : Name → Bool) (nWorkers : Nat) (tr : 
     (List.range nWorkers).all fun w =>
       logOf (some w) tdlog == teardownRun tdFail (some w) (startOrderOf inp w tr.reverse)
   else
-    tdlog.map (fun x => match x with | .run n _ => TdEv.run n none | .err n _ => TdEv.err n none)
-      == teardownRun tdFail none (startOrder inp tr.reverse)
+    tdlog.map TdEv.anon == teardownRun tdFail none (startOrder inp tr.reverse)
 
 /-- an item of the merged observation: an action start / end, or a teardown execution -/
 inductive MEv
